@@ -35,10 +35,17 @@ def bootstrap_repo():
 
 def load_findings():
     path = os.path.join(VERIF, 'known_findings.json')
-    if not os.path.exists(path):
-        return {'findings': [], 'fixed': []}
-    with open(path) as f:
-        return json.load(f)
+    out = {'findings': [], 'fixed': []}
+    paths = [path] if os.path.exists(path) else []
+    frag = os.path.join(VERIF, 'known_findings.d')
+    if os.path.isdir(frag):
+        paths += [os.path.join(frag, n) for n in sorted(os.listdir(frag)) if n.endswith('.json')]
+    for p in paths:
+        with open(p) as f:
+            d = json.load(f)
+        out['findings'] += d.get('findings', [])
+        out['fixed'] += d.get('fixed', [])
+    return out
 
 
 class Ctx:
